@@ -19,12 +19,13 @@ var taskClasses = []string{"t1", "t2", "t3"}
 var triggers = []string{"before_CONFIGURE", "after_CONFIGURE+10", "before_START_ACTIVITY", "enter_RUNNING-5", "after_STOP_ACTIVITY"}
 
 type gen15 struct {
-	r      *rand.Rand
-	nextID int
-	prefix string
-	nsub   int
-	budget int // rough bound on the number of expanded roles
-	maxDep int
+	r              *rand.Rand
+	nextID         int
+	prefix         string
+	nsub           int
+	budget         int // rough bound on the number of expanded roles
+	maxDep         int
+	roleCollisions int // role-level defaults/vars named like an iteration variable in scope
 }
 
 type scope struct {
@@ -99,7 +100,11 @@ func (g *gen15) enabledTpl(sc scope, forIterator bool) (Tpl, bool) {
 	return Tpl{{K: k, S: g.pick(gNames), Lit: g.pick(gVals)}}, false
 }
 
-func (g *gen15) kvs(sc scope, max int, allowRef bool) []KV {
+// kvs: own is the role's own iteration variable (if it is an iterator), isVars
+// tells whether the entries go to `vars`. Now and then the KEY is the name of an
+// iteration variable in scope: a role-level default/var colliding with it (the
+// generated role's own vars never define its own iteration variable: unranked).
+func (g *gen15) kvs(sc scope, max int, allowRef bool, own string, isVars bool) []KV {
 	n := g.r.Intn(max + 1)
 	seen := map[string]bool{}
 	var out []KV
@@ -110,6 +115,18 @@ func (g *gen15) kvs(sc scope, max int, allowRef bool) []KV {
 		}
 		seen[k] = true
 		out = append(out, KV{K: k, V: g.valueTpl(sc, allowRef)})
+	}
+	if len(sc.itVars) > 0 && g.r.Intn(100) < 18 {
+		j := g.r.Intn(len(sc.itVars))
+		k := sc.itVars[j]
+		if !(isVars && k == own) {
+			v := g.pick([]string{"zz", "1", "h1"})
+			if len(sc.itDom[j]) > 0 && g.r.Intn(3) > 0 {
+				v = sc.itDom[j][g.r.Intn(len(sc.itDom[j]))]
+			}
+			out = append(out, KV{K: k, V: Lit(v)})
+			g.roleCollisions++
+		}
 	}
 	return out
 }
@@ -292,8 +309,12 @@ func (g *gen15) node(sc scope, rootVars *[]KV) *Node {
 	n.Name = name
 	// own-stage scope: the own iteration variable is bound in every field of the role
 	n.Enabled, n.EnabledBare = g.enabledTpl(csc, n.Iter != nil)
-	n.Defaults = g.kvs(csc, 2, true)
-	n.Vars = g.kvs(csc, 2, true)
+	ownIt := ""
+	if n.Iter != nil {
+		ownIt = n.Iter.Var
+	}
+	n.Defaults = g.kvs(csc, 2, true, ownIt, false)
+	n.Vars = g.kvs(csc, 2, true, ownIt, true)
 	if n.Kind != "include" && g.r.Intn(100) < 30 {
 		n.Constraints = []KV{{K: g.pick([]string{"machine_id", "rack", "zone"}), V: g.valueTpl(csc, true)}}
 	}
@@ -352,8 +373,8 @@ func (g *gen15) node(sc scope, rootVars *[]KV) *Node {
 		if g.r.Intn(5) == 0 {
 			sub.Enabled, sub.EnabledBare = g.enabledTpl(ssc, false)
 		}
-		sub.Defaults = g.kvs(ssc, 2, true)
-		sub.Vars = g.kvs(ssc, 2, true)
+		sub.Defaults = g.kvs(ssc, 2, true, "", false)
+		sub.Vars = g.kvs(ssc, 2, true, "", true)
 		g.children(sub, ssc, rootVars)
 		n.Sub = sub
 	}
@@ -711,12 +732,70 @@ type Program struct {
 	RootName   string            `json:"root"`
 	Injections []injection       `json:"injections,omitempty"`
 	Files      map[string]string `json:"files"`
+	// environment-wide user variables handed to Load through a ParentAdapter
+	UserVars       map[string]string `json:"userVars,omitempty"`
+	UserCollisions []string          `json:"userVarsNamedLikeIterationVariables,omitempty"`
+	RoleCollisions int               `json:"roleLevelEntriesNamedLikeIterationVariables,omitempty"`
 	// expr-reuse: a program that loads fine and evaluates the same expression texts,
 	// loaded in the same process right before the program proper
 	PrimerName  string            `json:"primer,omitempty"`
 	PrimerFiles map[string]string `json:"primerFiles,omitempty"`
 	root        *Node
 	primer      *Node
+}
+
+// chooseUserVars gives a share of the programs environment-wide user variables:
+// some named like iteration variables the program uses (in names, enabled
+// expressions, constraints, nested ranges), with a value from the iterator's range
+// or outside it, some overriding one of the g* variables.
+func (g *gen15) chooseUserVars(p *Program) {
+	r := g.r
+	p.RoleCollisions = g.roleCollisions
+	if r.Intn(100) >= 40 {
+		return
+	}
+	_, _, st := Predict(p.root, Layer{})
+	var itNames []string
+	for k := range st.IterVals {
+		itNames = append(itNames, k)
+	}
+	sortStrings(itNames)
+	u := map[string]string{}
+	if len(itNames) > 0 && r.Intn(100) < 80 {
+		n := 1 + r.Intn(2)
+		for i := 0; i < n; i++ {
+			k := itNames[r.Intn(len(itNames))]
+			var vals []string
+			for v := range st.IterVals[k] {
+				vals = append(vals, v)
+			}
+			sortStrings(vals)
+			v := g.pick([]string{"zz", "99", "7"})
+			if len(vals) > 0 && r.Intn(10) < 7 {
+				v = vals[r.Intn(len(vals))]
+			}
+			if _, dup := u[k]; !dup {
+				p.UserCollisions = append(p.UserCollisions, k)
+			}
+			u[k] = v
+		}
+	}
+	if r.Intn(100) < 45 || len(u) == 0 {
+		u[g.pick(gNames)] = g.pick(gVals)
+	}
+	p.UserVars = u
+}
+
+func (p *Program) env() Layer {
+	return Layer{U: p.UserVars}
+}
+
+func sortStrings(s []string) {
+	for i := 1; i < len(s); i++ {
+		for j := i; j > 0 && s[j-1] > s[j]; j-- {
+			s[j-1], s[j] = s[j], s[j-1]
+		}
+	}
 }
 
 // genProgram builds program idx. Families:
@@ -768,6 +847,7 @@ func genProgram(r *rand.Rand, prefix string, idx int) *Program {
 		}
 		p.Injections = []injection{{Node: it.ID, Field: field, Kind: "runtime-error-for-one-element"}}
 		p.root = root
+		g.chooseUserVars(p)
 	case fam < 14:
 		p.Family = "sib-errors"
 		root := &Node{ID: g.id(), Kind: "agg", Name: Lit(prefix)}
@@ -790,14 +870,16 @@ func genProgram(r *rand.Rand, prefix string, idx int) *Program {
 	case fam < 22:
 		p.Family = "nested-iter"
 		p.root = g.nestedIter(prefix)
+		g.chooseUserVars(p)
 	case fam < 30:
 		p.Family = "expr-reuse"
 		g.exprReuse(p, prefix)
 	default:
 		p.Family = "generic"
 		p.root = g.rootNode(prefix)
+		g.chooseUserVars(p)
 		if q := r.Intn(100); q < 18 {
-			tree, _, st := Predict(p.root, Layer{})
+			tree, _, st := Predict(p.root, p.env())
 			if len(st.Errs) == 0 {
 				infos := collect(p.root)
 				markLive(tree, infos)
@@ -806,7 +888,7 @@ func genProgram(r *rand.Rand, prefix string, idx int) *Program {
 				}
 			}
 		} else if q < 46 {
-			tree, _, st := Predict(p.root, Layer{})
+			tree, _, st := Predict(p.root, p.env())
 			if len(st.Errs) == 0 {
 				infos := collect(p.root)
 				markLive(tree, infos)
